@@ -43,6 +43,18 @@ pub struct TaskSlot {
     pub polls: u32,
     /// group used to cancel all tasks that hold a given multiplexor
     pub group: u8,
+    /// endpoint the task belongs to (0 = A, 1 = B, 2 = unknown/both), from its name
+    pub side: u8,
+}
+
+fn side_of_name(n: &str) -> u8 {
+    if n.ends_with('A') || n.ends_with(".a") || n.contains(".a.") {
+        0
+    } else if n.ends_with('B') || n.ends_with(".b") || n.contains(".b.") {
+        1
+    } else {
+        2
+    }
 }
 
 /// Tasks spawned from inside running tasks are queued here.
@@ -126,8 +138,11 @@ impl Sim {
     }
 
     pub fn spawn(&mut self, name: impl Into<String>, group: u8, fut: impl Future<Output = ()> + 'static) -> usize {
+        let name: String = name.into();
+        let side = side_of_name(&name);
         self.tasks.push(TaskSlot {
-            name: name.into(),
+            side,
+            name,
             fut: Some(Box::pin(fut)),
             flag: Arc::new(WakeFlag {
                 woken: AtomicBool::new(true),
@@ -145,6 +160,7 @@ impl Sim {
         let new: Vec<_> = self.spawner.0.borrow_mut().drain(..).collect();
         for (name, group, fut) in new {
             self.tasks.push(TaskSlot {
+                side: side_of_name(&name),
                 name,
                 fut: Some(fut),
                 flag: Arc::new(WakeFlag {
@@ -173,6 +189,22 @@ impl Sim {
             }
         }
         v
+    }
+
+    /// Identity of a scheduler step for the partial-order mode: a delivery towards an endpoint belongs
+    /// to that endpoint (it pops the head of a queue the sender only appends to).
+    pub fn step_ident(&self, s: &Step) -> u16 {
+        match s {
+            Step::Poll(i) => crate::explore::step_id(self.tasks[*i].side, *i as u16),
+            Step::Deliver(d) => crate::explore::step_id(1 - *d as u8, 0x0ff0 + *d as u16),
+            Step::Extra(k) => crate::explore::step_id(2, 0x0fe0 + *k as u16),
+        }
+    }
+
+    /// Let the explorer pick one of the enabled steps (`None`: every one of them is asleep).
+    pub fn choose_enabled(&self, en: &[Step]) -> Option<usize> {
+        let ids: Vec<u16> = en.iter().map(|s| self.step_ident(s)).collect();
+        crate::explore::choose_step(&ids)
     }
 
     pub fn is_runnable(&self, i: usize) -> bool {
